@@ -11,7 +11,6 @@
 import logging
 import os
 import random
-import time
 from enum import Enum
 
 import numpy as np
@@ -95,7 +94,10 @@ class Configuration:
             np.random.default_rng(self.seed)
             random.seed(self.seed)
         else:
-            not_deterministic_seed = (os.getpid() * int(time.time())) % 123456789
+            # seed from the operating system's entropy source: a product of the process id and of the wall-clock
+            # second repeats across the pools of one run (same second, recycled pid) and, for some clock values,
+            # across the workers of one pool
+            not_deterministic_seed = int.from_bytes(os.urandom(4), "little")
             np.random.seed(not_deterministic_seed)
             np.random.default_rng(not_deterministic_seed)
             random.seed(not_deterministic_seed)
